@@ -109,7 +109,7 @@ func c24SchedRun(r *vrt.R) {
 		// FML handshake; the client's final FML|HS ACK completes the handshake and asks for a flush while the
 		// backend loop is inside handleJoinGame (connected server cleared, old backend closed, then
 		// handleBackendJoinGame drains to the new backend B, then B becomes the connected server).
-		{Name: "play-switch-fmlack-vs-joingame", Quick: 2, Thorough: -1, Body: func(x *sched.X) {
+		{Name: "play-switch-fmlack-vs-joingame", Quick: 2, Thorough: 4, Body: func(x *sched.X) {
 			rig := c24NewRig("play")
 			rig.player.SendLegacyForgeHandshakeResetPacket()
 			rig.sendIndexed(c24Chan, 2) // #1: held back, the handshake is not complete
